@@ -290,7 +290,7 @@ pub fn run(tier: Tier) -> i32 {
     ctx.assume("MPD's tokenizer is as ported in mpdref::tokenizer (Tokenizer.cxx NextWord/NextParam/NextString/NextUnquoted, StripRight, C-string semantics)");
     ctx.assume("arguments the builder rejects are outside the claim");
 
-    let single_len = tier.pick(5, 7);
+    let single_len = tier.pick(5, 8);
     let pair_pool = strings_over(SIGMA, tier.pick(2, 3));
     let triple_pool = strings_over(SIGMA, 1);
 
